@@ -3,6 +3,7 @@ evaluation  run(rho(P), rho(x)) ~ run(P, x),  pack(rho(v)) == pack(v)  on the re
 from __future__ import annotations
 
 import copy
+import re
 
 from specs import michelson_ref as R
 from bounded import C01_engine as E
@@ -151,7 +152,11 @@ def relate(base, var):
             return [('ensures.same_outcome', f'input accepted without annotations, with annotations: {var}', 'input')] if var[0] == 'input-error' else []
         return []
     if base[0] != var[0]:
-        return [('ensures.same_outcome', f'without annotations: {_brief(base)}; re-annotated: {_brief(var)}', f'{base[0]}->{var[0]}')]
+        why = ''
+        for o in (base, var):
+            if o[0] == 'error' and o[2]:
+                why = ':' + re.sub(r'[^A-Za-z ].*', '', str(o[2][-1])).strip()[:60]
+        return [('ensures.same_outcome', f'without annotations: {_brief(base)}; re-annotated: {_brief(var)}', f'{base[0]}->{var[0]}{why}')]
     out = []
     if base[0] == 'ok':
         if len(base[1]) != len(var[1]):
